@@ -67,6 +67,9 @@ def main():
         shutil.rmtree(wt, ignore_errors=True)
         shutil.rmtree(ev, ignore_errors=True)
         sh("git -C /repo worktree prune")
+    if "--record" in args:
+        res2 = dict(res); res2["seed"] = os.path.relpath(d, VERIF)
+        json.dump(res2, open(os.path.join(d, "verified.json"), "w"), indent=1)
     print(json.dumps(res, indent=1))
 
 
